@@ -135,3 +135,80 @@ func VerifC02_ArbitraryHandshake() {
 	}
 	vReached("end")
 }
+
+// C02 (derived transcripts): the reference BMC runs a correct handshake except for ONE
+// deviation, chosen from the property's catalogue:
+//   0 the BMC holds a different password (one byte differs)
+//   1 the BMC holds a different KG (one byte differs; only when KG is in use)
+//   2 one byte of the authenticated fields of RAKP 2 is changed after the AuthCode was
+//     computed (console session ID echo, BMC random, GUID, AuthCode)
+//   3 one byte of the BMC session ID in the Open Session Response is changed (the BMC keeps
+//     computing with its real ID)
+//   4 one byte of the RAKP 4 ICV is changed
+//   5 the status code of one of the three replies is non-zero
+//   6 the tag of one of the three replies is changed
+//   7 one of the three replies is truncated at an arbitrary length
+// No session may be returned; deviation 0 must yield ErrIncorrectPassword.
+func VerifC02_DerivedTranscript() {
+	ft := &vFakeTransport{}
+	s := vNewSessionless(ft)
+	auth, integ := vSuite()
+	username := vBytes([]int{0, 5}[vChoice(2)])
+	password := vBytes(20)
+	var kg []byte
+	withKG := vBool()
+	if withKG {
+		kg = vBytes(20)
+	}
+	dev := vChoice(8)
+	bmcPassword := append([]byte{}, password...)
+	bmcKG := append([]byte{}, kg...)
+	x := vByte()
+	vAssume(x != 0)
+	switch dev {
+	case 0:
+		bmcPassword[vChoice(20)] ^= x
+	case 1:
+		vAssume(withKG)
+		bmcKG[vChoice(20)] ^= x
+	}
+	bmc := &refBMC{password: bmcPassword, kg: bmcKG, sidC: vU32(), rC: vBytes(16), guid: vBytes(16), useProposal: true}
+	which := vChoice(3) // which reply a per-reply deviation applies to
+	step := 0
+	ft.reply = func(attempt int, req []byte) ([]byte, error) {
+		r := bmc.handle(req)
+		if dev != 3 {
+			// (with deviation 3 the console addresses RAKP 1 to the altered session ID)
+			vAssert(bmc.wellFormed, "c02-console-payload-well-formed")
+		}
+		p := r[16:]
+		switch {
+		case dev == 2 && step == 1:
+			p[4+vChoice(len(p)-4)] ^= x
+		case dev == 3 && step == 0:
+			p[8+vChoice(4)] ^= x
+		case dev == 4 && step == 2:
+			p[8+vChoice(len(p)-8)] ^= x
+		case dev == 5 && step == which:
+			p[1] = x
+		case dev == 6 && step == which:
+			p[0] ^= x
+		case dev == 7 && step == which:
+			cut := vLen(0, len(p)-1)
+			r = refSessionless(r[5], append([]byte{}, p[:cut]...))
+		}
+		step++
+		return r, nil
+	}
+	sess, err := s.NewV2Session(context.Background(), &V2SessionOpts{
+		SessionOpts: SessionOpts{Username: string(username), Password: password, MaxPrivilegeLevel: ipmi.PrivilegeLevelAdministrator},
+		KG:          kg,
+		CipherSuites: []ipmi.CipherSuite{{AuthenticationAlgorithm: ipmi.AuthenticationAlgorithm(auth),
+			IntegrityAlgorithm: ipmi.IntegrityAlgorithm(integ), ConfidentialityAlgorithm: ipmi.ConfidentialityAlgorithmAESCBC128}},
+	})
+	vAssert(err != nil && sess == nil, "c02-no-session-from-a-deviating-transcript")
+	if dev == 0 {
+		vAssert(err == ErrIncorrectPassword, "c02-wrong-password-is-reported-as-such")
+	}
+	vReached("end")
+}
